@@ -135,7 +135,11 @@ impl StringGenerator {
         let mut sgr = Vec::new();
         let mut sgr_tc = Vec::new();
 
-        let fg = attr.get_foreground();
+        let mut fg = attr.get_foreground();
+        if attr.is_bold() && fg < 8 {
+            // a bold cell is displayed in the bright palette entry, which a custom palette may set to any colour
+            fg += 8;
+        }
         let cur_fore_color = buf.palette.get_color(fg);
         let cur_fore_rgb = cur_fore_color.get_rgb();
 
@@ -156,8 +160,10 @@ impl StringGenerator {
         let is_concealed = attr.is_concealed();
 
         if let Some(idx) = fore_idx {
-            // a dark color keeps the bold flag of the attribute (it is displayed as its bright variant)
-            if idx > 7 && idx < 16 {
+            // the bold flag is part of the colour looked up above: a dark colour is written without it
+            if idx < 8 {
+                is_bold = false;
+            } else if idx > 7 && idx < 16 {
                 is_bold = true;
                 fore_idx = Some(idx - 8);
             }
